@@ -518,6 +518,11 @@ def _resolve_sweep(env: Env, case: dict[str, Any], threads: list[list[dict[str, 
         if st not in seen:
             seen.add(st)
             distinct.append(st)
+    # rarely passed sites first: windows around hot sites are also found by the random policies
+    counts = {st: 0 for st in distinct}
+    for st in trace:
+        counts[st] += 1
+    distinct.sort(key=lambda st: counts[st])  # stable: first-appearance order among equals
     n = pol["site_number"]
     site = distinct[n % len(distinct)]
     lap = n // len(distinct)
